@@ -5,21 +5,29 @@ import ChythonModel.Proofs.C07Compile
 import ChythonModel.Proofs.C07Stack
 import ChythonModel.Proofs.C07Top
 import ChythonModel.Proofs.C07Multi3
+import ChythonModel.Proofs.C07Multi4
 /-!
 # C07 — substructure search returns exactly the set of valid embeddings
 
 All theorems are about the definitions of `Model/Iso.lean` / `Model/IsoCheck.lean` that `Drivers/C07.lean` executes,
-for ALL graphs, linearisations, scopes and compatibility relations `atomOk` / `bondOk` (nothing is specific to an element
-or bond type, so the statements are independent of C08).
+for ALL graphs, scopes and compatibility relations `atomOk` / `bondOk` (nothing is specific to an element or bond type; the
+driver instantiates them with the models of `Element/Query*.__eq__`, `Bond/QueryBond.__eq__`).
 
-Chain of the argument for one pattern component (one call of the module-level `_get_mapping`):
+Chain of the argument:
 
-  `compileQuery q`  --(checkCompiled accepts; re-checked by the driver on every case and on the REAL `_compile_query`)-->
-  `CompiledOK`      --(`component_exact`: sound + complete + duplicate free)-->  `Spec.Embedding.EmbedsComp`
-  `getMapping e` (stack machine) `= some (recMapping e)`: compared by the driver on every case (`rec=1`); see
-  `StackRefinesRec` below.
+  `compile_covers`, `compile_total`   `_compile_query` always terminates with a valid DFS linearisation (`CompiledOK`)
+  `rec_sound/complete/nodup`          the recursive reference enumerator returns exactly the embeddings of one component
+  `stack_refines_rec`                 the explicit stack machine `_get_mapping` returns the same list (never crashes)
+  `getMapping_exact`                  ⇒ the function the code runs is exact for every component / scope
+  `permutations_exact`, `lazyProduct_exact`, gluing lemmas
+  `iso_single_exact`, `iso_multi_exact`, `get_mapping_exact`
+                                      ⇒ the whole `Isomorphism._get_mapping` call (any number of pattern components, any
+                                        scope) returns, without duplicates, exactly the maps satisfying `Spec.IsEmbedding`
+  `filter_one_per_image_set`, `get_mapping_filtered`   exactly one mapping per distinct image set with the filter
+  `scope_exact`, `operators_agree`, `substructure_operator_exact`
 
-Hypotheses are never vacuous: each implication is followed by an `example` instantiating it on a concrete pattern/target.
+`checkCompiled_guarantees` is the soundness of the executable checker the driver applies to the REAL `_compile_query`
+output. Hypotheses are never vacuous: `example`s at the end instantiate every theorem's hypotheses on concrete graphs.
 -/
 namespace ChythonModel.Props.C07
 open ChythonModel.Model.Iso ChythonModel.Spec.Embedding ChythonModel.Proofs.C07
@@ -307,7 +315,7 @@ theorem filter_one_per_image_set (ms : List Dict) :
 theorem iso_multi_exact (p : Problem) (hq : p.q.WF = true) (ht : p.t.WF = true)
     (hpart : checkComponents p.t p.tComps = true) (hb : BondSymm p.bondOk) (comps : List (List Step)) (cl : Closures)
     (hcq : compileQuery p.q = some (comps, cl)) (hne : comps ≠ []) (hk : ∀ lq, comps ≠ [lq]) :
-    ∃ r, isoUnfiltered p comps cl = some r ∧
+    ∃ r, isoUnfiltered p comps cl = some r ∧ r.Nodup ∧
       ∀ m, m ∈ r ↔ ∃ f, m = asDict (comps.flatten.map (·.front)) f ∧
         IsEmbedding p.q p.t (scopeFn p.scope) p.atomOk p.bondOk f := by
   have hc := compile_covers p.q hq comps cl hcq
@@ -346,7 +354,70 @@ theorem iso_multi_exact (p : Problem) (hq : p.q.WF = true) (ht : p.t.WF = true)
       obtain ⟨lq, hlq, rfl⟩ := List.mem_map.1 hC
       exact hF.nodup lq hlq
     · rw [List.pairwise_map]; exact hF.disj
-  refine ⟨_, isoUnfiltered_multi p cl comps hne hk hgm, ?_⟩
+  -- membership in the result of one assignment
+  have htuple : ∀ cands, cands.length = comps.length → ∀ m, m ∈ tupleResult p cl comps cands ↔
+      ∃ f, AllEmb p comps cands f ∧ m = asDict (comps.flatten.map (·.front)) f := by
+    intro cands hl m
+    simp only [tupleResult, List.mem_map]
+    constructor
+    · rintro ⟨ms, hms, rfl⟩
+      rw [lazyProduct_mem, glue_tuple p cl comps cands ms hx hcl hF.disj] at hms
+      obtain ⟨f, hall, rfl⟩ := hms
+      exact ⟨f, hall, hmerge cands f hl⟩
+    · rintro ⟨f, hall, rfl⟩
+      refine ⟨(comps.zip cands).map fun pr => asDict (frontsOf pr.1) f, ?_, hmerge cands f hl⟩
+      rw [lazyProduct_mem, glue_tuple p cl comps cands _ hx hcl hF.disj]
+      exact ⟨f, hall, rfl⟩
+  have hperm := permutations_spec comps.length p.tComps htnd
+  have hallF : ∀ lq ∈ comps, ∀ u ∈ frontsOf lq, u ∈ comps.flatten.map (·.front) := by
+    intro lq hlq u hu
+    rw [hflat, List.mem_flatten]
+    exact ⟨_, List.mem_map.2 ⟨lq, hlq, rfl⟩, hu⟩
+  refine ⟨_, isoUnfiltered_multi p cl comps hne hk hgm, ?_, ?_⟩
+  · -- no duplicates
+    rw [List.nodup_flatMap]
+    refine ⟨?_, ?_⟩
+    · intro cands hcands
+      obtain ⟨hl, _, _⟩ := (hperm.1 cands).1 hcands
+      unfold tupleResult
+      refine List.Nodup.map_on ?_ ?_
+      · intro ms hms ms' hms' heq
+        rw [lazyProduct_mem, glue_tuple p cl comps cands ms hx hcl hF.disj] at hms
+        rw [lazyProduct_mem, glue_tuple p cl comps cands ms' hx hcl hF.disj] at hms'
+        obtain ⟨f, _, rfl⟩ := hms
+        obtain ⟨f', _, rfl⟩ := hms'
+        rw [hmerge cands f hl, hmerge cands f' hl] at heq
+        have hff := asDict_inj _ f f' heq
+        apply List.map_congr_left
+        intro pr hpr
+        apply asDict_congr
+        intro u hu
+        exact hff u (hallF pr.1 (List.of_mem_zip hpr).1 u hu)
+      · exact ((lazyProduct_perm _).nodup_iff).2 (cartesian_nodup _
+          (mapperList_nodup p cl (fun lq cand => rec_nodup p.t ht lq cl _ p.atomOk p.bondOk) comps cands))
+    · refine List.Pairwise.imp_of_mem ?_ hperm.2
+      intro a b ha hb hab
+      simp only [Function.onFun]
+      intro m hma hmb
+      obtain ⟨hla, _, hsa⟩ := (hperm.1 a).1 ha
+      obtain ⟨hlb, _, hsb⟩ := (hperm.1 b).1 hb
+      obtain ⟨f, hfa, rfl⟩ := (htuple a hla m).1 hma
+      obtain ⟨f', hfb, hmm⟩ := (htuple b hlb _).1 hmb
+      have hff := asDict_inj _ f f' hmm
+      apply hab
+      refine cands_unique p.tComps hP.disjoint (fun lq => f (headFront lq)) comps a b hla hlb hsa hsb ?_ ?_
+      · intro pr hpr
+        have hlq := (List.of_mem_zip hpr).1
+        have := (hfa pr hpr).in_scope _ (headFront_mem pr.1 (hF.ok pr.1 hlq).ne)
+        simp only [restrict_contains, Bool.and_eq_true, List.contains_iff_mem] at this
+        exact this.1
+      · intro pr hpr
+        have hlq := (List.of_mem_zip hpr).1
+        have hh := headFront_mem pr.1 (hF.ok pr.1 hlq).ne
+        have := (hfb pr hpr).in_scope _ hh
+        simp only [restrict_contains, Bool.and_eq_true, List.contains_iff_mem] at this
+        rw [hff _ (hallF pr.1 hlq _ hh)]
+        exact this.1
   intro m
   rw [List.mem_flatMap]
   constructor
@@ -365,14 +436,11 @@ theorem iso_multi_exact (p : Problem) (hq : p.q.WF = true) (ht : p.t.WF = true)
     rw [lazyProduct_mem, glue_tuple p cl comps cands _ hx hcl hF.disj]
     exact ⟨f, hall, rfl⟩
 
-/-- **`get_mapping_exact`** — the property's first sentence for the whole unfiltered call, any number of pattern
-    components: for every well-formed non-empty pattern and well-formed target (with accepted `connected_components`), every
-    scope and every direction-independent compatibility relation, `Isomorphism._get_mapping(automorphism_filter=False)`
-    terminates normally and returns exactly the dicts of the maps satisfying `IsEmbedding`. -/
-theorem get_mapping_exact (p : Problem) (hq : p.q.WF = true) (ht : p.t.WF = true)
-    (hpart : checkComponents p.t p.tComps = true) (hb : BondSymm p.bondOk) (hatoms : p.q.atoms ≠ [])
-    (haf : p.autoFilter = false) :
-    ∃ comps cl r, compileQuery p.q = some (comps, cl) ∧ isoGetMapping p = some r ∧
+/-- the unfiltered list `Isomorphism._get_mapping` builds before the `seen` filter, for any number of pattern components:
+    terminates normally, duplicate free, and contains exactly the dicts of the maps satisfying `IsEmbedding` -/
+theorem iso_unfiltered_exact (p : Problem) (hq : p.q.WF = true) (ht : p.t.WF = true)
+    (hpart : checkComponents p.t p.tComps = true) (hb : BondSymm p.bondOk) (hatoms : p.q.atoms ≠ []) :
+    ∃ comps cl r, compileQuery p.q = some (comps, cl) ∧ isoUnfiltered p comps cl = some r ∧ r.Nodup ∧
       ∀ m, m ∈ r ↔ ∃ f, m = asDict (comps.flatten.map (·.front)) f ∧
         IsEmbedding p.q p.t (scopeFn p.scope) p.atomOk p.bondOk f := by
   obtain ⟨comps, cl, hcq⟩ := compile_total p.q hq
@@ -385,16 +453,46 @@ theorem get_mapping_exact (p : Problem) (hq : p.q.WF = true) (ht : p.t.WF = true
     simp at this
   by_cases hk : ∃ lq, comps = [lq]
   · obtain ⟨lq, rfl⟩ := hk
-    obtain ⟨r, hr, _, hmem⟩ := iso_single_exact p hq ht hpart hb lq cl hcq
-    refine ⟨[lq], cl, r, hcq, ?_, ?_⟩
-    · unfold isoGetMapping
-      simp [hcq, hr, haf]
-    · simpa using hmem
+    obtain ⟨r, hr, hnd, hmem⟩ := iso_single_exact p hq ht hpart hb lq cl hcq
+    exact ⟨[lq], cl, r, hcq, hr, hnd, by simpa using hmem⟩
   · have hk' : ∀ lq, comps ≠ [lq] := fun lq h => hk ⟨lq, h⟩
-    obtain ⟨r, hr, hmem⟩ := iso_multi_exact p hq ht hpart hb comps cl hcq hne hk'
-    refine ⟨comps, cl, r, hcq, ?_, hmem⟩
-    unfold isoGetMapping
-    simp [hcq, hr, haf]
+    obtain ⟨r, hr, hnd, hmem⟩ := iso_multi_exact p hq ht hpart hb comps cl hcq hne hk'
+    exact ⟨comps, cl, r, hcq, hr, hnd, hmem⟩
+
+/-- **`get_mapping_exact`** — the property's first sentence for the whole unfiltered call, any number of pattern
+    components: for every well-formed non-empty pattern and well-formed target (with accepted `connected_components`), every
+    scope (`None`, or any collection — also an empty one) and every direction-independent compatibility relation,
+    `Isomorphism._get_mapping(automorphism_filter=False)` terminates normally and returns, without duplicates, exactly the
+    dicts of the maps satisfying `IsEmbedding`. -/
+theorem get_mapping_exact (p : Problem) (hq : p.q.WF = true) (ht : p.t.WF = true)
+    (hpart : checkComponents p.t p.tComps = true) (hb : BondSymm p.bondOk) (hatoms : p.q.atoms ≠ [])
+    (haf : p.autoFilter = false) :
+    ∃ comps cl r, compileQuery p.q = some (comps, cl) ∧ isoGetMapping p = some r ∧ r.Nodup ∧
+      ∀ m, m ∈ r ↔ ∃ f, m = asDict (comps.flatten.map (·.front)) f ∧
+        IsEmbedding p.q p.t (scopeFn p.scope) p.atomOk p.bondOk f := by
+  obtain ⟨comps, cl, r, hcq, hr, hnd, hmem⟩ := iso_unfiltered_exact p hq ht hpart hb hatoms
+  refine ⟨comps, cl, r, hcq, ?_, hnd, hmem⟩
+  unfold isoGetMapping
+  simp [hcq, hr, haf]
+
+/-- **`get_mapping_filtered`** — the property's second sentence for the whole call: with `automorphism_filter=True` the
+    result is the `seen`-filter of the exact embedding list `r`: a sub-list of `r` (every survivor is a valid embedding), no
+    two survivors have the same set of image atoms, and every image set occurring in `r` is represented — exactly one mapping
+    per distinct set of image atoms. -/
+theorem get_mapping_filtered (p : Problem) (hq : p.q.WF = true) (ht : p.t.WF = true)
+    (hpart : checkComponents p.t p.tComps = true) (hb : BondSymm p.bondOk) (hatoms : p.q.atoms ≠ [])
+    (haf : p.autoFilter = true) :
+    ∃ comps cl r, compileQuery p.q = some (comps, cl) ∧ isoGetMapping p = some (autoFilter r) ∧
+      (∀ m, m ∈ r ↔ ∃ f, m = asDict (comps.flatten.map (·.front)) f ∧
+        IsEmbedding p.q p.t (scopeFn p.scope) p.atomOk p.bondOk f) ∧
+      (autoFilter r).Sublist r ∧
+      (autoFilter r).Pairwise (fun a b => setEq (vals a) (vals b) = false) ∧
+      (∀ m ∈ r, ∃ m' ∈ autoFilter r, setEq (vals m) (vals m') = true) := by
+  obtain ⟨comps, cl, r, hcq, hr, _, hmem⟩ := iso_unfiltered_exact p hq ht hpart hb hatoms
+  obtain ⟨f1, f2, f3⟩ := filter_one_per_image_set r
+  refine ⟨comps, cl, r, hcq, ?_, hmem, f1, f2, f3⟩
+  unfold isoGetMapping
+  simp [hcq, hr, haf]
 
 /-- the filtered call: `isoGetMapping` with `automorphism_filter=True` keeps exactly one of those embeddings per image set -/
 theorem iso_single_filtered (p : Problem) (hq : p.q.WF = true) (ht : p.t.WF = true)
@@ -477,6 +575,26 @@ theorem is_substructure_iff_embedding (q t : Graph) (comps : List (List Step)) (
     exact ⟨f, emb⟩
   · rintro ⟨f, emb⟩
     exact List.ne_nil_of_mem ((hx _).2 ⟨f, rfl, emb⟩)
+
+/-- **operators on the whole call**: `pattern <= target` / `is_substructure` (which consume the unfiltered call) are true
+    exactly when a valid embedding exists; `<` and `is_equal` add the size comparison (`operators_agree`). -/
+theorem substructure_operator_exact (p : Problem) (hq : p.q.WF = true) (ht : p.t.WF = true)
+    (hpart : checkComponents p.t p.tComps = true) (hb : BondSymm p.bondOk) (hatoms : p.q.atoms ≠ [])
+    (haf : p.autoFilter = false) :
+    ∃ r, isoGetMapping p = some r ∧
+      (isSubstructure r = true ↔ ∃ f, IsEmbedding p.q p.t (scopeFn p.scope) p.atomOk p.bondOk f) ∧
+      (opLe r = true ↔ ∃ f, IsEmbedding p.q p.t (scopeFn p.scope) p.atomOk p.bondOk f) := by
+  obtain ⟨comps, cl, r, _, hr, _, hmem⟩ := get_mapping_exact p hq ht hpart hb hatoms haf
+  have key : isSubstructure r = true ↔ ∃ f, IsEmbedding p.q p.t (scopeFn p.scope) p.atomOk p.bondOk f := by
+    rw [(operators_agree 0 0 r []).1]
+    constructor
+    · intro hne
+      obtain ⟨m, hm⟩ := List.exists_mem_of_ne_nil _ hne
+      obtain ⟨f, _, e⟩ := (hmem m).1 hm
+      exact ⟨f, e⟩
+    · rintro ⟨f, e⟩
+      exact List.ne_nil_of_mem ((hmem _).2 ⟨f, rfl, e⟩)
+  exact ⟨r, hr, key, key⟩
 
 /-! ## non-vacuity: the hypotheses are satisfiable and the conclusions are non-trivial -/
 
